@@ -26,6 +26,8 @@ def sh(cmd, **kw):
 
 
 def main():
+    for k in ("OMP_NUM_THREADS", "OPENBLAS_NUM_THREADS", "MKL_NUM_THREADS"):
+        os.environ[k] = "1"
     wt, pid, name = sys.argv[1:4]
     tests = sys.argv[4:]
     out = os.path.join(wt, "OUT")
